@@ -235,6 +235,13 @@ func c11Build(sc c11Scenario, implicit bool) (files map[string]string, configFil
 				l2["depends_on.required"] = 1
 			}
 		}
+		if c11TwoLayers(sc.Origin) && sc.Restate["depends_on"] == 3 && sc.Dep2 != 2 {
+			// everything that is said about depends_on is said in ONE layer, so that the other layer holds nothing but
+			// the bare restatement — in both spellings (a D leaf that IMP drops must not decide whether it is written)
+			for _, k := range []string{"depends_on.required", "links.depends_on", "ipc.depends_on", "volumes_from.depends_on"} {
+				l2[k] = l2["depends_on.condition"]
+			}
+		}
 		if c11TwoLayers(sc.Origin) && sc.Restate["build"] != 0 {
 			// the build section is defined in ONE layer (the one of its dockerfile) and restated in the other
 			l2["build.base"], l2["build.context"] = l2["build.dockerfile"], l2["build.dockerfile"]
@@ -521,6 +528,22 @@ func c11Build(sc c11Scenario, implicit bool) (files map[string]string, configFil
 			layers[listForm]["depends_on"] = []any{"b", "b2", "b3"}
 		} else {
 			layers[listForm]["depends_on"] = []any{"b"}
+		}
+	}
+
+	if restate("depends_on") == 3 && !absent["depends_on"] && sc.Dep2 != 2 {
+		// bare restatement of the dependency on `b` in the other layer, when that layer says nothing else about
+		// depends_on: the list `[b]` (EXP) vs the long entry the specification gives for it (IMP).  The short syntax
+		// of depends_on is DEFINED as `{condition: service_started, required: true}` by both expansion sites
+		// (transformDependsOn, override.convertIntoMapping; C03's mergeDependsOn_short_eq_long), so IMP writes both —
+		// see design/C11.md, round 7, for what the minimal long entry `{condition: service_started}` does instead.
+		o := layers[1-sc.Layer["depends_on.condition"]&1]
+		if _, has := o["depends_on"]; !has {
+			if implicit {
+				o["depends_on"] = map[string]any{"b": map[string]any{"condition": "service_started", "required": true}}
+			} else {
+				o["depends_on"] = []any{"b"}
+			}
 		}
 	}
 
@@ -1084,6 +1107,12 @@ func c11RandomScenario(r *rand.Rand) c11Scenario {
 			}
 			sc.Restate["build"] = []int{1, 3, 3}[r.Intn(3)]
 		}
+		if r.Intn(4) == 0 {
+			if sc.Restate == nil {
+				sc.Restate, sc.RSpell = map[string]int{}, map[string]int{}
+			}
+			sc.Restate["depends_on"] = 3
+		}
 		if sc.Restate != nil {
 			for _, id := range []string{"ports.protocol", "ports.mode", "secrets.target", "env_file.required", "build.context", "build.dockerfile"} {
 				sc.RSpell[id] = r.Intn(2)
@@ -1362,13 +1391,13 @@ func c11Oracle(ctx *core.Ctx) {
 	// round 7 — implicit vs explicit ACROSS layers: one layer defines the parent with every combination of I / D /
 	// another value for its default-able attributes, the other layer restates the parent bare, short (EXP) vs long
 	// (IMP); for the build section also a long restatement with its own I / D spelling per attribute
-	bareSites := map[string][]string{"build": {"build.context", "build.dockerfile"}, "ports": {"ports.protocol", "ports.mode"}, "secrets": {"secrets.target"}, "env_file": {"env_file.required"}}
+	bareSites := map[string][]string{"depends_on": {"depends_on.condition", "depends_on.required"}, "build": {"build.context", "build.dockerfile"}, "ports": {"ports.protocol", "ports.mode"}, "secrets": {"secrets.target"}, "env_file": {"env_file.required"}}
 	for _, origin := range c11Origins {
 		if !c11TwoLayers(origin) {
 			continue
 		}
 		for layer := 0; layer < 2; layer++ {
-			for _, unit := range []string{"build", "ports", "secrets", "env_file"} {
+			for _, unit := range []string{"build", "ports", "secrets", "env_file", "depends_on"} {
 				ids := bareSites[unit]
 				n := 1
 				for range ids {
@@ -1378,7 +1407,7 @@ func c11Oracle(ctx *core.Ctx) {
 					for variant := 0; variant < 6; variant++ {
 						// variants: 0 bare; 1 bare + the sibling switch of the unit (dockerfile_inline / format); 2..5 build only:
 						// long restatement, RSpell = variant-2
-						if variant >= 2 && unit != "build" || variant == 1 && (unit == "ports" || unit == "secrets") {
+						if variant >= 2 && unit != "build" || variant == 1 && (unit == "ports" || unit == "secrets" || unit == "depends_on") {
 							continue
 						}
 						sc := c11NewScenario(origin)
